@@ -532,3 +532,6 @@ def run(prog: Program, res: Result) -> None:  # noqa: PLR0912, PLR0915
     from checks.shared import check_globals_merged
 
     check_globals_merged(prog, res, "C16.R11")
+    from checks.shared import check_env_globals_merge_shape
+
+    check_env_globals_merge_shape(prog, res, "C16.R11")
